@@ -237,11 +237,14 @@ Qed.
 Section Walk.
   Variable c : cfg.
   Hypothesis Hc : cfg_ok c.
-  Variables (m size align : Z).
+  Variable m : Z.
   Hypothesis Hm : valid_min_align m.
-  Hypothesis Hl : valid_layout size align.
-
-  Let f := fun ch => chunk_alloc c m ch size align.
+  (* the per-chunk action (alloc or prepare) and what it guarantees about its result *)
+  Variable R : Type.
+  Variable f : chunk -> option (R * chunk).
+  Variable Q : chunk -> R -> Prop.
+  Hypothesis Hf : forall ch p ch1, chunk_ok c ch -> (m | cpos ch) -> f ch = Some (p, ch1) ->
+    chunk_ok c ch1 /\ same_geom ch ch1 /\ (m | cpos ch1) /\ Q ch1 p.
 
   Lemma m_div16 : (m | 16).
   Proof. apply min_align_div16; assumption. Qed.
@@ -255,8 +258,7 @@ Section Walk.
     (forall k ch, (j < k)%nat -> nth_error cs' k = Some ch -> nth_error cs k = Some ch) /\
     ((i < j)%nat -> exists ch, nth_error cs' j = Some ch /\ (m | cpos ch)) /\
     (j = i -> res = None) /\
-    (forall p, res = Some p ->
-       exists ch, nth_error cs' j = Some ch /\ (align | p) /\ in_chunk c ch p size /\ alloc_side c ch p size).
+    (forall p, res = Some p -> exists ch, nth_error cs' j = Some ch /\ Q ch p).
   Proof.
     induction fuel as [|fuel IH]; intros cs i cs' j res Hok Hi H.
     - cbn in H. injection H as <- <- <-.
@@ -269,30 +271,21 @@ Section Walk.
       destruct (fresh_pos_ok c Hc ch Hg) as [Hrok Hr16].
       assert (Hrm : (m | cpos (reset_chunk c ch))).
       { eapply Z.divide_trans; [apply m_div16|exact Hr16]. }
-      fold f in H. destruct (f (reset_chunk c ch)) as [[p ch1]|] eqn:Ef.
+      destruct (f (reset_chunk c ch)) as [[p ch1]|] eqn:Ef.
       + injection H as <- <- <-.
-        destruct (chunk_alloc_sound c Hc m _ size align p ch1 Hrok Hm Hrm Hl Ef)
-          as (np & -> & Hap & Hmnp & Hnp & Hside).
-        assert (Hg1 : chunk_ok c (set_pos (reset_chunk c ch) np)).
-        { exact (set_pos_ok c _ np (proj1 Hrok) Hnp). }
+        destruct (Hf _ _ _ Hrok Hrm Ef) as (Hg1 & Hsg & Hm1 & Hq).
         split; [apply Forall_set_nth; assumption|]. split.
         { eapply Forall2_set_nth; [apply Forall2_same_geom_refl|exact En|].
-          eapply same_geom_trans; [apply (same_geom_set_pos ch)|apply same_geom_set_pos]. }
+          eapply same_geom_trans; [apply (same_geom_set_pos ch)|exact Hsg]. }
         split; [lia|]. split.
         { intros k Hk. apply nth_error_set_nth_neq. lia. }
         split.
         { intros k ch0 Hk E. rewrite nth_error_set_nth_neq in E by lia. exact E. }
         split.
-        { intros _. eexists; split; [apply nth_error_set_nth_eq; lia|exact Hmnp]. }
+        { intros _. eexists; split; [apply nth_error_set_nth_eq; lia|exact Hm1]. }
         split; [lia|].
         intros p0 E0. injection E0 as <-.
-        eexists; split; [apply nth_error_set_nth_eq; lia|]. split; [exact Hap|].
-        pose proof (geom_bounds c Hc _ (proj1 Hrok)) as (_ & Hle & _).
-        unfold in_chunk, alloc_side. cbn [set_pos cpos content_start content_end cbase csize].
-        change (content_start c (set_pos (reset_chunk c ch) np)) with (content_start c (reset_chunk c ch)).
-        change (content_end c (set_pos (reset_chunk c ch) np)) with (content_end c (reset_chunk c ch)).
-        pose proof (proj2 Hrok) as Hrp. destruct Hl as (_ & Hs0 & _).
-        destruct (up c); [destruct Hside as [S1 S2]|destruct Hside as [S1 S2]]; repeat split; try lia.
+        eexists; split; [apply nth_error_set_nth_eq; lia|exact Hq].
       + assert (Hok2 : Forall (chunk_ok c) (set_nth cs (S i) (reset_chunk c ch)))
           by (apply Forall_set_nth; assumption).
         assert (Hi2 : (S i < length (set_nth cs (S i) (reset_chunk c ch)))%nat)
@@ -300,8 +293,7 @@ Section Walk.
         destruct (IH _ _ _ _ _ Hok2 Hi2 H) as (A1 & A2 & A3 & A4 & A5 & A6 & A7 & A8).
         rewrite set_nth_length in A3.
         split; [exact A1|]. split.
-        { (* geometry: cs ~ set_nth cs .. ~ cs' *)
-          assert (HF : Forall2 same_geom cs (set_nth cs (S i) (reset_chunk c ch))).
+        { assert (HF : Forall2 same_geom cs (set_nth cs (S i) (reset_chunk c ch))).
           { eapply Forall2_set_nth; [apply Forall2_same_geom_refl|exact En|apply same_geom_set_pos]. }
           eapply Forall2_same_geom_trans; eassumption. }
         split; [lia|]. split.
@@ -583,7 +575,16 @@ Proof.
     pose proof (nth_error_some_lt _ _ _ Eni) as Hilt.
     destruct (walk_next c (fun ch => chunk_alloc c (malign s) ch size align) (chunks s) i (length (chunks s)))
       as [[cs j] wres] eqn:Ew.
-    destruct (walk_next_spec c Hc (malign s) size align Hm Hl _ _ _ _ _ _ Hok Hilt Ew)
+    assert (HfA : forall ch p ch1, chunk_ok c ch -> (malign s | cpos ch) ->
+              chunk_alloc c (malign s) ch size align = Some (p, ch1) ->
+              chunk_ok c ch1 /\ same_geom ch ch1 /\ (malign s | cpos ch1) /\
+              ((align | p) /\ in_chunk c ch1 p size /\ alloc_side c ch1 p size)).
+    { intros ch p ch1 Hcok Hcm Hca.
+      destruct (chunk_alloc_geom c _ ch size align p ch1 Hc Hcok Hm Hcm Hl Hca) as (G1 & G2 & G3 & G4 & G5 & G6 & _).
+      split; [exact G1|]. split; [exact G2|]. split; [exact G3|]. split; [exact G4|]. split; [exact G5|exact G6]. }
+    destruct (walk_next_spec c Hc (malign s) Hm Z (fun ch => chunk_alloc c (malign s) ch size align)
+                (fun ch1 p => (align | p) /\ in_chunk c ch1 p size /\ alloc_side c ch1 p size) HfA
+                _ _ _ _ _ _ Hok Hilt Ew)
       as (W1 & W2 & W3 & W4 & W5 & W6 & W7 & W8).
     pose proof (Forall2_length _ _ _ W2) as Hlen.
     (* where the old ranges are, in terms of the walked chunk list *)
@@ -1274,13 +1275,541 @@ Proof.
       * unfold ids_ok. rewrite F1, Hnil. cbn [map]. split; [constructor|]. split; [constructor|]. split; constructor.
 Qed.
 
+(* ------------------------------------------------------------ reallocation *)
+Lemma In_ForallOrdPairs_disjoint l a b :
+  ForallOrdPairs disjoint2 l -> In a l -> In b l -> bid a <> bid b -> disjoint2 a b.
+Proof.
+  intros Hl. induction Hl as [|x l Hx Hl IH]; [contradiction|].
+  rewrite Forall_forall in Hx. intros [->|Ha] [->|Hb] Hne.
+  - congruence.
+  - exact (Hx b Hb).
+  - apply disjoint_rng_sym. exact (Hx a Ha).
+  - apply IH; assumption.
+Qed.
+
+(* With `blk` the newest block of the current chunk, any range of that chunk that starts no
+   earlier than blk (up) / ends no later than blk's end (down) meets no other live block. *)
+Lemma others_disjoint_free_side c s i ch blk b' x n :
+  cfg_ok c -> inv c s -> cur s = Cur i -> nth_error (chunks s) i = Some ch ->
+  In blk (live s) -> In b' (live s) -> bid b' <> bid blk ->
+  (if up c then bptr blk + bsize blk = cpos ch else bptr blk = cpos ch) ->
+  in_chunk c ch x n -> 0 <= n ->
+  (if up c then bptr blk <= x else x + n <= bptr blk + bsize blk) ->
+  disjoint_rng (bptr b') (bsize b') x n /\
+  (0 < bsize b' -> in_chunk c ch (bptr b') (bsize b') ->
+     if up c then bptr b' + bsize b' <= bptr blk else bptr blk + bsize blk <= bptr b').
+Proof.
+  intros Hc Hinv Ec En Hblk Hb' Hne Hlast Hin Hn Hside.
+  pose proof Hinv as ((Hok & Hd & Hm & Hcur) & Hb & Hdis & _).
+  rewrite Forall_forall in Hb.
+  destruct (Hb b' Hb') as (B1 & _ & (k & chk & Hk & Hinc & Hs)). rewrite Ec in Hs. destruct Hs as [Hki Hks].
+  destruct (Hb blk Hblk) as (C1 & _ & _).
+  pose proof (In_ForallOrdPairs_disjoint _ _ _ Hdis Hb' Hblk Hne) as Hdj. unfold disjoint2, disjoint_rng in Hdj.
+  pose proof (Forall_nth_error _ _ _ _ Hok En) as [Hgeo Hpos].
+  assert (Hsame : 0 < bsize b' -> in_chunk c ch (bptr b') (bsize b') ->
+                  if up c then bptr b' + bsize b' <= bptr blk else bptr blk + bsize blk <= bptr b').
+  { intros Hpos' [J1 J2].
+    assert (Hk' : k = i).
+    { destruct (Nat.eq_dec k i) as [E|Hnk]; [exact E|exfalso].
+      pose proof (Forall_nth_error _ _ _ _ Hok Hk) as [Gk _].
+      pose proof (chunk_range_in_granted c chk _ _ Hc Gk Hinc ltac:(lia)).
+      pose proof (chunk_range_in_granted c ch _ _ Hc Hgeo (conj J1 J2) ltac:(lia)).
+      specialize (Hd k i chk ch Hnk Hk En). lia. }
+    subst k. rewrite En in Hk. injection Hk as <-. specialize (Hks eq_refl Hpos').
+    destruct (up c); lia. }
+  split; [|exact Hsame].
+  destruct (Z_le_gt_dec (bsize b') 0) as [Hz|Hpos']; [unfold disjoint_rng; lia|].
+  destruct (Nat.eq_dec k i) as [->|Hnk].
+  - rewrite En in Hk. injection Hk as <-. specialize (Hsame ltac:(lia) Hinc).
+    unfold disjoint_rng. destruct (up c); lia.
+  - eapply (placed_other_chunk_disjoint c (chunks s) k i); try eassumption; try lia.
+Qed.
+
+Lemma set_nth_set_nth {A} (l : list A) i x y : set_nth (set_nth l i x) i y = set_nth l i y.
+Proof. revert i; induction l as [|a l IH]; intros [|i]; cbn; try reflexivity. f_equal. apply IH. Qed.
+
+(* the reallocation cases that stay inside the current chunk *)
+Lemma realloc_in_cur_chunk c s b blk i ch x n al np s1 s3 id :
+  cfg_ok c -> inv c s -> find_block s b = Some blk ->
+  cur s = Cur i -> nth_error (chunks s) i = Some ch ->
+  (if up c then bptr blk + bsize blk = cpos ch else bptr blk = cpos ch) ->
+  0 <= n -> (al | x) -> in_chunk c ch x n -> (malign s | np) ->
+  (if up c then bptr blk <= x /\ x + n <= np /\ np <= content_end c ch
+   else np <= x /\ x + n <= bptr blk + bsize blk /\ content_start c ch <= np) ->
+  chunks s1 = set_nth (chunks s) i (set_pos ch np) -> cur s1 = cur s -> aligns s1 = aligns s ->
+  live s1 = live s -> nextid s1 = nextid s ->
+  add_block (remove_block s1 b) x n al = (s3, id) ->
+  inv c s3.
+Proof.
+  intros Hc Hinv Hf Ec En Hlast Hn Hal Hin Hmnp Hgeo E1 E2 E3 E4 E5 Hadd.
+  destruct (find_block_spec _ _ _ Hf) as [Hblk Hid].
+  pose proof Hinv as ((Hok & Hd & Hm & Hcur) & Hb & Hdis & Hids).
+  pose proof (Forall_nth_error _ _ _ _ Hok En) as [Hg Hpos].
+  destruct Hin as [I1 I2].
+  rewrite Forall_forall in Hb. destruct (Hb blk Hblk) as (C1 & _ & Cpl).
+  assert (Hblkin : in_chunk c ch (bptr blk) (bsize blk)).
+  { eapply is_last_in_cur; try eassumption. exact (proj1 Hinv). }
+  (* the state with the position moved satisfies the invariant for all blocks but blk *)
+  assert (Hrange : content_start c ch <= np <= content_end c ch).
+  { destruct Hblkin as [K1 K2]. destruct (up c); lia. }
+  assert (Hinv' : inv c (remove_block (set_cur_pos s np) b)).
+  { assert (Hs : set_cur_pos (remove_block s b) np = remove_block (set_cur_pos s np) b).
+    { unfold set_cur_pos, remove_block. cbn [cur chunks upd_live]. rewrite Ec, En. reflexivity. }
+    rewrite <- Hs.
+    eapply (set_cur_pos_inv c (remove_block s b) i ch np Hc); try eassumption.
+    - apply inv_filter. exact Hinv.
+    - intros b' Hb'. cbn [live remove_block upd_live] in Hb'. apply filter_In in Hb'. destruct Hb' as [Hb'in Hne'].
+      apply negb_true_iff in Hne'. apply Nat.eqb_neq in Hne'.
+      intros Hpos' Hinc'.
+      destruct (others_disjoint_free_side c s i ch blk b' (bptr blk) (bsize blk) Hc Hinv Ec En Hblk Hb'in
+                  ltac:(congruence) Hlast Hblkin C1 ltac:(destruct (up c); lia)) as [_ Hside'].
+      specialize (Hside' Hpos' Hinc'). destruct (up c); lia. }
+  (* transfer to s1 (same chunks/cur/ghost data as set_cur_pos s np) *)
+  assert (Hinv1 : inv c (remove_block s1 b)).
+  { eapply (inv_ext c (remove_block (set_cur_pos s np) b)); [..|exact Hinv'];
+      unfold remove_block, set_cur_pos; cbn [chunks cur aligns live nextid upd_live upd_chunks];
+      rewrite ?Ec, ?En; cbn [chunks cur aligns live nextid upd_live upd_chunks]; congruence. }
+  destruct Hinv1 as (Hg1 & Hb1 & Hd1 & Hi1).
+  eapply (inv_add_block c (remove_block s1 b) x n al s3 id); try eassumption.
+  - (* placed *)
+    exists i, (set_pos ch np). cbn [chunks cur remove_block upd_live]. rewrite E1, E2, Ec.
+    split; [apply nth_error_set_nth_eq; eapply nth_error_some_lt; exact En|].
+    split; [split; assumption|]. split; [lia|]. intros _ Hpn. unfold alloc_side. cbn [set_pos cpos].
+    destruct (up c); lia.
+  - (* disjoint from every other live block *)
+    intros b' Hb'. cbn [live remove_block upd_live] in Hb'. rewrite E4 in Hb'. apply filter_In in Hb'.
+    destruct Hb' as [Hb'in Hne']. apply negb_true_iff in Hne'. apply Nat.eqb_neq in Hne'.
+    apply (others_disjoint_free_side c s i ch blk b' x n Hc Hinv Ec En Hblk Hb'in ltac:(congruence) Hlast (conj I1 I2) Hn).
+    destruct (up c); lia.
+Qed.
+
+(* after any allocation attempt the invariant still holds for the old blocks *)
+Lemma alloc_result_inv c s s1 size align res :
+  inv c s -> alloc_result_ok c s s1 size align res -> inv c s1.
+Proof.
+  intros (Hg & Hb & Hd & Hi) ((F1 & F2 & F3 & F4 & F5 & F6) & Hg1 & Hpl & _).
+  split; [exact Hg1|]. rewrite F1. split.
+  - rewrite Forall_forall in *. intros b Hin. destruct (Hb b Hin) as (B1 & B2 & B3).
+    repeat split; try assumption. apply Hpl; assumption.
+  - split; [exact Hd|]. unfold ids_ok in *. rewrite F1, F6. exact Hi.
+Qed.
+
+(* a reallocation that moved the block to a freshly allocated one *)
+Lemma realloc_moved c s b blk s1 s2 p n al s3 id :
+  cfg_ok c -> inv c s -> find_block s b = Some blk ->
+  alloc_result_ok c s s1 n al (inl p) -> 0 <= n ->
+  chunks s2 = chunks s1 -> cur s2 = cur s1 -> aligns s2 = aligns s1 -> live s2 = live s1 ->
+  nextid s2 = nextid s1 ->
+  add_block (remove_block s2 b) p n al = (s3, id) ->
+  inv c s3.
+Proof.
+  intros Hc Hinv Hf Hres Hn E1 E2 E3 E4 E5 Hadd.
+  pose proof (alloc_result_inv c s s1 n al (inl p) Hinv Hres) as Hinv1.
+  destruct Hres as ((F1 & _) & _ & Hpl & Hap & Hpp & Hdisj).
+  assert (Hinv2 : inv c s2) by (eapply inv_ext; eassumption).
+  pose proof (inv_filter c s2 (fun x => negb (Nat.eqb (bid x) b)) Hinv2) as (Hg3 & Hb3 & Hd3 & Hi3).
+  eapply (inv_add_block c (remove_block s2 b) p n al s3 id); try eassumption.
+  - eapply placed_ext; [exact E1|exact E2|exact Hpp].
+  - intros b' Hb'. cbn [live remove_block upd_live] in Hb'. apply filter_In in Hb'. destruct Hb' as [Hb'in _].
+    rewrite E4, F1 in Hb'in. destruct Hinv as (_ & Hb & _). rewrite Forall_forall in Hb.
+    destruct (Hb b' Hb'in) as (B1 & _ & B3). apply Hdisj; assumption.
+Qed.
+
+Lemma copy_block_fields s src dst len no s' ub :
+  copy_block s src dst len no = (s', ub) ->
+  chunks s' = chunks s /\ cur s' = cur s /\ aligns s' = aligns s /\ live s' = live s /\ nextid s' = nextid s.
+Proof. unfold copy_block. intros H. injection H as <- _. repeat split. Qed.
+
+Lemma zero_fill_fields s a n :
+  chunks (zero_fill s a n) = chunks s /\ cur (zero_fill s a n) = cur s /\ aligns (zero_fill s a n) = aligns s /\
+  live (zero_fill s a n) = live s /\ nextid (zero_fill s a n) = nextid s.
+Proof. repeat split. Qed.
+
+Lemma set_cur_pos_fields s i ch p :
+  cur s = Cur i -> nth_error (chunks s) i = Some ch ->
+  chunks (set_cur_pos s p) = set_nth (chunks s) i (set_pos ch p) /\ cur (set_cur_pos s p) = cur s /\
+  aligns (set_cur_pos s p) = aligns s /\ live (set_cur_pos s p) = live s /\ nextid (set_cur_pos s p) = nextid s.
+Proof.
+  intros Ec En. unfold set_cur_pos. destruct (cur s) as [j| |] eqn:E; try discriminate.
+  injection Ec as ->. rewrite En. repeat split. cbn [cur upd_chunks]. exact E.
+Qed.
+
+(* ------------------------------------------------------------ OGrow *)
+Lemma step_inv_grow c s0 h ws b nsize nalign zeroed r :
+  cfg_ok c -> inv c s0 -> valid_layout nsize nalign ->
+  (forall blk, find_block s0 b = Some blk -> bsize blk <= nsize) ->
+  resp_ok c s0 nsize nalign r ->
+  inv c (fst (step c s0 (OGrow h ws b nsize nalign zeroed) r)).
+Proof.
+  intros Hc Hinv Hl Hge Hr. apply inv_tick in Hinv.
+  assert (Hr' : resp_ok c (tick s0) nsize nalign r) by (eapply resp_ok_ext; [|exact Hr]; reflexivity).
+  assert (Hge' : forall blk, find_block (tick s0) b = Some blk -> bsize blk <= nsize) by exact Hge.
+  clear Hr Hge. cbn [step]. set (s := tick s0) in *.
+  destruct (find_block s b) as [blk|] eqn:Ef; [|exact Hinv].
+  destruct (negb (is_top s h)); [exact Hinv|].
+  specialize (Hge' blk eq_refl).
+  destruct (find_block_spec _ _ _ Ef) as [Hblk Hid].
+  pose proof Hinv as (Hg & Hb & Hdis & Hids).
+  pose proof Hg as (Hok & Hd & Hm & Hcur).
+  pose proof (min_align_pos _ Hm) as Hmpos.
+  rewrite Forall_forall in Hb. destruct (Hb blk Hblk) as (C1 & C2 & Cpl).
+  pose proof Hl as (Ha2 & Hs0 & Hl3). pose proof (pow2_pos _ Ha2) as Hapos.
+  (* the three outcomes of an allocation-based move *)
+  assert (Hmoved : forall x : arena * (Z + err),
+            (x = raw_alloc c s nsize nalign r \/ x = raw_alloc_slow c s nsize nalign r) ->
+            inv c (fst (let '(s1, res) :=
+                     match x with
+                     | (s1, inl np) => let '(s2, ub) := copy_block s1 (bptr blk) np (bsize blk) true in (s2, inl (mkRO np nsize ub))
+                     | (s1, inr e) => (s1, inr e)
+                     end in
+                   match res with
+                   | inl ro =>
+                     let s2 := if zeroed then zero_fill s1 (ro_ptr ro + bsize blk) (nsize - bsize blk) else s1 in
+                     let '(s3, id) := add_block (remove_block s2 b) (ro_ptr ro) (ro_size ro) nalign in
+                     (s3, mkOut (RBlock id (ro_ptr ro) (ro_size ro)) (new_events s s3) (ro_ub ro))
+                   | inr e => (s1, mkOut (RErr e) (new_events s s1) false)
+                   end))).
+  { intros [s1 [np|e]] Hx.
+    - assert (Hres : alloc_result_ok c s s1 nsize nalign (inl np)).
+      { destruct Hx as [Hx|Hx]; symmetry in Hx; [eapply raw_alloc_post|eapply raw_alloc_slow_post]; eassumption. }
+      destruct (copy_block s1 (bptr blk) np (bsize blk) true) as [s2 ub] eqn:Ecb.
+      destruct (copy_block_fields _ _ _ _ _ _ _ Ecb) as (K1 & K2 & K3 & K4 & K5).
+      cbn [ro_ptr ro_size ro_ub].
+      set (s2' := if zeroed then zero_fill s2 (np + bsize blk) (nsize - bsize blk) else s2).
+      assert (K' : chunks s2' = chunks s1 /\ cur s2' = cur s1 /\ aligns s2' = aligns s1 /\ live s2' = live s1 /\ nextid s2' = nextid s1).
+      { unfold s2'. destruct zeroed; cbn [chunks cur aligns live nextid zero_fill upd_mem]; repeat split; assumption. }
+      destruct K' as (L1 & L2 & L3 & L4 & L5).
+      destruct (add_block (remove_block s2' b) np nsize nalign) as [s3 id] eqn:Eadd. cbn [fst].
+      eapply (realloc_moved c s b blk s1 s2' np nsize nalign s3 id); eassumption.
+    - cbn [fst].
+      assert (Hres : alloc_result_ok c s s1 nsize nalign (inr e)).
+      { destruct Hx as [Hx|Hx]; symmetry in Hx; [eapply raw_alloc_post|eapply raw_alloc_slow_post]; eassumption. }
+      eapply alloc_result_inv; eassumption. }
+  unfold raw_grow. destruct (up c) eqn:Eup.
+  - (* upwards *)
+    destruct (is_last c s (bptr blk) (bsize blk) && divides nalign (bptr blk)) eqn:Elast.
+    + apply andb_true_iff in Elast. destruct Elast as [El Ediv].
+      unfold is_last in El. destruct (cur_chunk s) as [ch|] eqn:Ecc; [|discriminate].
+      destruct (cur_chunk_spec s ch Ecc) as (i & Ec & En). rewrite Eup in El. apply Z.eqb_eq in El.
+      destruct (Z.leb_spec nsize (content_end c ch - bptr blk)) as [Hfit|Hnofit].
+      * (* grow in place *)
+        cbn [ro_ptr ro_size ro_ub].
+        set (np := up_alignZ (bptr blk + nsize) (malign s)).
+        set (s1 := set_cur_pos s np).
+        set (s2 := if zeroed then zero_fill s1 (bptr blk + bsize blk) (nsize - bsize blk) else s1).
+        destruct (add_block (remove_block s2 b) (bptr blk) nsize nalign) as [s3 id] eqn:Eadd. cbn [fst].
+        pose proof (Forall_nth_error _ _ _ _ Hok En) as [Hgeo Hpos].
+        pose proof (geom_bounds c Hc ch Hgeo) as (_ & _ & _ & _ & _ & He16 & _).
+        assert (Hblkin : in_chunk c ch (bptr blk) (bsize blk)).
+        { eapply is_last_in_cur; try eassumption. rewrite Eup. exact El. }
+        destruct Hblkin as [I1 I2].
+        assert (Hnp1 : bptr blk + nsize <= np) by (apply up_align_ge; exact Hmpos).
+        assert (Hnp2 : np <= content_end c ch).
+        { apply up_align_min; [exact Hmpos| |lia]. eapply Z.divide_trans; [apply min_align_div16; exact Hm|exact He16]. }
+        destruct (set_cur_pos_fields s i ch np Ec En) as (G1 & G2 & G3 & G4 & G5).
+        assert (HF : chunks s2 = set_nth (chunks s) i (set_pos ch np) /\ cur s2 = cur s /\ aligns s2 = aligns s /\
+                     live s2 = live s /\ nextid s2 = nextid s).
+        { unfold s2, s1. destruct zeroed; cbn [chunks cur aligns live nextid zero_fill upd_mem]; repeat split; assumption. }
+        destruct HF as (HF1 & HF2 & HF3 & HF4 & HF5).
+        eapply (realloc_in_cur_chunk c s b blk i ch (bptr blk) nsize nalign np s2 s3 id); try eassumption.
+        -- rewrite Eup. exact El.
+        -- unfold divides in Ediv. apply Z.eqb_eq in Ediv. apply Z.mod_divide; [lia|exact Ediv].
+        -- split; lia.
+        -- apply up_align_div; exact Hmpos.
+        -- rewrite Eup. repeat split; lia.
+      * apply (Hmoved (raw_alloc_slow c s nsize nalign r)). right; reflexivity.
+    + apply (Hmoved (raw_alloc c s nsize nalign r)). left; reflexivity.
+  - (* downwards *)
+    destruct (is_last c s (bptr blk) (bsize blk)) eqn:El.
+    + unfold is_last in El. destruct (cur_chunk s) as [ch|] eqn:Ecc; [|discriminate].
+      destruct (cur_chunk_spec s ch Ecc) as (i & Ec & En). rewrite Eup in El. apply Z.eqb_eq in El.
+      set (A := Z.max nalign (malign s)).
+      set (na := down_alignZ (Z.max (bptr blk - (nsize - bsize blk)) 0) A).
+      destruct (Z.leb_spec (content_start c ch) na) as [Hfit|Hnofit].
+      * (* reuse the space in place: the block moves down inside the current chunk *)
+        destruct (copy_block s (bptr blk) na (bsize blk) (na + nsize <? bptr blk)) as [s1 ub] eqn:Ecb.
+        destruct (copy_block_fields _ _ _ _ _ _ _ Ecb) as (K1 & K2 & K3 & K4 & K5).
+        cbn [ro_ptr ro_size ro_ub].
+        set (s1' := set_cur_pos s1 na).
+        set (s2 := if zeroed then zero_fill s1' (na + bsize blk) (nsize - bsize blk) else s1').
+        destruct (add_block (remove_block s2 b) na nsize nalign) as [s3 id] eqn:Eadd. cbn [fst].
+        pose proof (Forall_nth_error _ _ _ _ Hok En) as [Hgeo Hpos].
+        pose proof (geom_bounds c Hc ch Hgeo) as (Hcs0 & _).
+        assert (HA2 : pow2 A) by (apply pow2_max; [exact Ha2|exact (proj1 Hm)]).
+        pose proof (pow2_pos _ HA2) as HApos.
+        assert (Hblkin : in_chunk c ch (bptr blk) (bsize blk)).
+        { eapply is_last_in_cur; try eassumption. rewrite Eup. exact El. }
+        destruct Hblkin as [I1 I2].
+        assert (Hna1 : na <= Z.max (bptr blk - (nsize - bsize blk)) 0) by (apply down_align_le; exact HApos).
+        assert (Hna0 : 0 < na) by lia.
+        assert (Hna2 : na <= bptr blk - (nsize - bsize blk)) by lia.
+        assert (En1 : nth_error (chunks s1) i = Some ch) by (rewrite K1; exact En).
+        assert (Ec1 : cur s1 = Cur i) by (rewrite K2; exact Ec).
+        destruct (set_cur_pos_fields s1 i ch na Ec1 En1) as (G1 & G2 & G3 & G4 & G5).
+        assert (HF : chunks s2 = set_nth (chunks s) i (set_pos ch na) /\ cur s2 = cur s /\ aligns s2 = aligns s /\
+                     live s2 = live s /\ nextid s2 = nextid s).
+        { unfold s2, s1'. destruct zeroed; cbn [chunks cur aligns live nextid zero_fill upd_mem];
+            rewrite ?G1, ?G2, ?G3, ?G4, ?G5, ?K1, ?K2, ?K3, ?K4, ?K5; repeat split. }
+        destruct HF as (HF1 & HF2 & HF3 & HF4 & HF5).
+        eapply (realloc_in_cur_chunk c s b blk i ch na nsize nalign na s2 s3 id); try eassumption.
+        -- rewrite Eup. exact El.
+        -- apply down_align_div_finer; [exact HApos|]. apply pow2_divide; [exact Ha2|exact HA2|unfold A; lia].
+        -- split; lia.
+        -- apply down_align_div_finer; [exact HApos|]. apply pow2_divide; [exact (proj1 Hm)|exact HA2|unfold A; lia].
+        -- rewrite Eup. repeat split; lia.
+      * apply (Hmoved (raw_alloc_slow c s nsize nalign r)). right; reflexivity.
+    + apply (Hmoved (raw_alloc c s nsize nalign r)). left; reflexivity.
+Qed.
+
+(* ------------------------------------------------------------ OShrink *)
+(* the same block handed back, possibly shorter and with another (satisfied) alignment *)
+Lemma readd_subblock c s b blk n al s3 id :
+  cfg_ok c -> inv c s -> find_block s b = Some blk ->
+  0 <= n <= bsize blk -> (al | bptr blk) ->
+  add_block (remove_block s b) (bptr blk) n al = (s3, id) ->
+  inv c s3.
+Proof.
+  intros Hc Hinv Hf Hn Hal Hadd.
+  destruct (remove_block_facts c s b blk Hinv Hf) as ((Hg1 & Hb1 & Hd1 & Hi1) & B1 & B2 & B3 & B4).
+  eapply (inv_add_block c (remove_block s b) (bptr blk) n al s3 id); try eassumption; try lia.
+  - destruct B3 as (k & chk & Hk & [I1 I2] & Hs). exists k, chk. split; [exact Hk|]. split; [split; lia|].
+    destruct (cur (remove_block s b)); try contradiction. destruct Hs as [Hki Hks]. split; [exact Hki|].
+    intros E Hpos. specialize (Hks E ltac:(lia)). unfold alloc_side in *. destruct (up c); lia.
+  - intros b' Hb'. specialize (B4 b' Hb'). unfold disjoint_rng in *. lia.
+Qed.
+
+Lemma find_block_ext s s' b : live s' = live s -> find_block s' b = find_block s b.
+Proof. intros E. unfold find_block. rewrite E. reflexivity. Qed.
+
+Lemma set_nth_same {A} (l : list A) i x : nth_error l i = Some x -> set_nth l i x = l.
+Proof. revert i; induction l as [|a l IH]; intros [|i] H; cbn in *; try discriminate; [congruence|]. f_equal. apply IH. exact H. Qed.
+
+Lemma set_pos_cpos ch : set_pos ch (cpos ch) = ch.
+Proof. destruct ch; reflexivity. Qed.
+
+Lemma set_pos_set_pos ch p q : set_pos (set_pos ch p) q = set_pos ch q.
+Proof. reflexivity. Qed.
+
+(* the allocation-based outcomes of a shrink, shared by WithoutShrink and the unfit path *)
+Lemma shrink_moved_inv c s b blk nsize nalign r (x : arena * (Z + err)) len :
+  cfg_ok c -> inv c s -> find_block s b = Some blk -> valid_layout nsize nalign ->
+  resp_ok c s nsize nalign r ->
+  (x = raw_alloc c s nsize nalign r \/ x = raw_alloc_slow c s nsize nalign r) ->
+  inv c (fst (let '(s1, res) :=
+           match x with
+           | (s1, inl np) => let '(s2, ub) := copy_block s1 (bptr blk) np len true in (s2, inl (mkRO np nsize ub))
+           | (s1, inr e) => (s1, inr e)
+           end in
+         match res with
+         | inl ro =>
+           let '(s3, id) := add_block (remove_block s1 b) (ro_ptr ro) (ro_size ro) nalign in
+           (s3, mkOut (RBlock id (ro_ptr ro) (ro_size ro)) (new_events s s3) (ro_ub ro))
+         | inr e => (s1, mkOut (RErr e) (new_events s s1) false)
+         end)).
+Proof.
+  intros Hc Hinv Hf Hl Hr Hx. destruct x as [s1 [np|e]].
+  - assert (Hres : alloc_result_ok c s s1 nsize nalign (inl np)).
+    { destruct Hx as [Hx|Hx]; symmetry in Hx; [eapply raw_alloc_post|eapply raw_alloc_slow_post]; try eassumption; exact (proj1 Hinv). }
+    destruct (copy_block s1 (bptr blk) np len true) as [s2 ub] eqn:Ecb.
+    destruct (copy_block_fields _ _ _ _ _ _ _ Ecb) as (K1 & K2 & K3 & K4 & K5).
+    cbn [ro_ptr ro_size ro_ub].
+    destruct (add_block (remove_block s2 b) np nsize nalign) as [s3 id] eqn:Eadd. cbn [fst].
+    destruct Hl as (_ & Hs0 & _).
+    eapply (realloc_moved c s b blk s1 s2 np nsize nalign s3 id); eassumption.
+  - cbn [fst].
+    assert (Hres : alloc_result_ok c s s1 nsize nalign (inr e)).
+    { destruct Hx as [Hx|Hx]; symmetry in Hx; [eapply raw_alloc_post|eapply raw_alloc_slow_post]; try eassumption; exact (proj1 Hinv). }
+    eapply alloc_result_inv; eassumption.
+Qed.
+
+Lemma divides_spec a x : 0 < a -> divides a x = true -> (a | x).
+Proof. intros Ha H. unfold divides in H. apply Z.eqb_eq in H. apply Z.mod_divide; [lia|exact H]. Qed.
+
+Lemma step_inv_shrink c s0 h ws b nsize nalign r :
+  cfg_ok c -> inv c s0 -> valid_layout nsize nalign ->
+  (forall blk, find_block s0 b = Some blk -> nsize <= bsize blk) ->
+  resp_ok c s0 nsize nalign r ->
+  inv c (fst (step c s0 (OShrink h ws b nsize nalign) r)).
+Proof.
+  intros Hc Hinv Hl Hle Hr. apply inv_tick in Hinv.
+  assert (Hr' : resp_ok c (tick s0) nsize nalign r) by (eapply resp_ok_ext; [|exact Hr]; reflexivity).
+  assert (Hle' : forall blk, find_block (tick s0) b = Some blk -> nsize <= bsize blk) by exact Hle.
+  clear Hr Hle. cbn [step]. set (s := tick s0) in *.
+  destruct (find_block s b) as [blk|] eqn:Ef; [|exact Hinv].
+  specialize (Hle' blk eq_refl).
+  destruct (find_block_spec _ _ _ Ef) as [Hblk Hid].
+  pose proof Hinv as (Hg & Hb & Hdis & Hids).
+  pose proof Hg as (Hok & Hd & Hm & Hcur).
+  pose proof (min_align_pos _ Hm) as Hmpos.
+  rewrite Forall_forall in Hb. destruct (Hb blk Hblk) as (C1 & C2 & Cpl).
+  pose proof Hl as (Ha2 & Hs0 & Hl3). pose proof (pow2_pos _ Ha2) as Hapos.
+  (* handle claimed: block unchanged or error *)
+  destruct (negb (is_top s h) && negb (has_wrapper WShrink ws && divides nalign (bptr blk))).
+  { destruct (divides nalign (bptr blk)) eqn:Ediv; [|exact Hinv].
+    destruct (add_block (remove_block s b) (bptr blk) (bsize blk) nalign) as [s3 id] eqn:Eadd. cbn [fst].
+    eapply (readd_subblock c s b blk (bsize blk) nalign s3 id); try eassumption; [lia|].
+    apply divides_spec; assumption. }
+  destruct (has_wrapper WShrink ws).
+  - (* WithoutShrink *)
+    unfold ws_shrink. destruct (divides nalign (bptr blk)) eqn:Ediv.
+    + cbn [ro_ptr ro_size ro_ub].
+      destruct (add_block (remove_block s b) (bptr blk) nsize nalign) as [s3 id] eqn:Eadd. cbn [fst].
+      eapply (readd_subblock c s b blk nsize nalign s3 id); try eassumption; [lia|].
+      apply divides_spec; assumption.
+    + apply (shrink_moved_inv c s b blk nsize nalign r (raw_alloc c s nsize nalign r)
+               (if fix_without_shrink c then nsize else bsize blk)); try assumption. left; reflexivity.
+  - unfold raw_shrink. destruct (negb (divides nalign (bptr blk))) eqn:Endiv.
+    + (* shrink_unfit *)
+      destruct (shrinks c && is_last c s (bptr blk) (bsize blk)) eqn:Esl.
+      * apply andb_true_iff in Esl. destruct Esl as [_ El].
+        unfold is_last in El. destruct (cur_chunk s) as [ch0|] eqn:Ecc; [|discriminate].
+        destruct (cur_chunk_spec s ch0 Ecc) as (i & Ec & En).
+        pose proof (Forall_nth_error _ _ _ _ Hok En) as [Hgeo Hpos].
+        assert (Hlast : if up c then bptr blk + bsize blk = cpos ch0 else bptr blk = cpos ch0).
+        { destruct (up c); apply Z.eqb_eq in El; exact El. }
+        assert (Hblkin : in_chunk c ch0 (bptr blk) (bsize blk)) by (eapply is_last_in_cur; eassumption).
+        destruct Hblkin as [I1 I2].
+        rewrite Ec in Hcur. destruct Hcur as (ch0' & En' & Hmp). rewrite En in En'. injection En' as <-.
+        (* the position after deallocate_assume_last *)
+        set (p1 := if negb (deallocates c) then cpos ch0
+                   else if up c then align_posZ true (malign s) (bptr blk)
+                   else align_posZ false (malign s) (bptr blk + bsize blk)).
+        assert (Hp1 : (malign s | p1) /\ content_start c ch0 <= p1 <= content_end c ch0 /\
+                      (if up c then bptr blk <= p1 else p1 <= bptr blk + bsize blk)).
+        { unfold p1, align_posZ. destruct (negb (deallocates c)).
+          - split; [exact Hmp|]. split; [exact Hpos|]. destruct (up c); lia.
+          - destruct (up c) eqn:Eup.
+            + pose proof (up_align_ge (bptr blk) (malign s) Hmpos).
+              assert (up_alignZ (bptr blk) (malign s) <= cpos ch0) by (apply up_align_min; [exact Hmpos|exact Hmp|lia]).
+              split; [apply up_align_div; exact Hmpos|]. split; lia.
+            + pose proof (down_align_le (bptr blk + bsize blk) (malign s) Hmpos).
+              assert (cpos ch0 <= down_alignZ (bptr blk + bsize blk) (malign s)) by (apply down_align_max; [exact Hmpos|exact Hmp|lia]).
+              split; [apply down_align_div; exact Hmpos|]. split; lia. }
+        destruct Hp1 as (Hp1m & Hp1r & Hp1s).
+        assert (Es1 : chunks (dealloc_assume_last c s (bptr blk) (bsize blk)) = set_nth (chunks s) i (set_pos ch0 p1) /\
+                      cur (dealloc_assume_last c s (bptr blk) (bsize blk)) = cur s /\
+                      aligns (dealloc_assume_last c s (bptr blk) (bsize blk)) = aligns s /\
+                      live (dealloc_assume_last c s (bptr blk) (bsize blk)) = live s /\
+                      nextid (dealloc_assume_last c s (bptr blk) (bsize blk)) = nextid s).
+        { unfold dealloc_assume_last, p1. destruct (negb (deallocates c)).
+          - rewrite set_pos_cpos, (set_nth_same _ _ _ En). repeat split.
+          - destruct (up c); apply set_cur_pos_fields; assumption. }
+        set (s1 := dealloc_assume_last c s (bptr blk) (bsize blk)) in *.
+        destruct Es1 as (D1 & D2 & D3 & D4 & D5).
+        assert (En1 : nth_error (chunks s1) i = Some (set_pos ch0 p1)).
+        { rewrite D1. apply nth_error_set_nth_eq. eapply nth_error_some_lt; exact En. }
+        assert (Ecc1 : cur_chunk s1 = Some (set_pos ch0 p1)) by (unfold cur_chunk; rewrite D2, Ec; exact En1).
+        rewrite Ecc1.
+        assert (Hm1 : malign s1 = malign s) by (unfold malign; rewrite D3; reflexivity).
+        assert (Hchok1 : chunk_ok c (set_pos ch0 p1)) by (apply set_pos_ok; assumption).
+        destruct (chunk_alloc c (malign s) (set_pos ch0 p1) nsize nalign) as [[np ch1]|] eqn:Eca.
+        -- (* reallocated inside the current chunk *)
+           destruct (chunk_alloc_sound c Hc (malign s) (set_pos ch0 p1) nsize nalign np ch1 Hchok1 Hm Hp1m Hl Eca)
+             as (npos & -> & Hanp & Hmnpos & Hnposr & Hside).
+           cbn [set_pos cpos] in Hside.
+           change (content_start c (set_pos ch0 p1)) with (content_start c ch0) in Hnposr.
+           change (content_end c (set_pos ch0 p1)) with (content_end c ch0) in Hnposr.
+           rewrite D2, Ec.
+           set (s2 := upd_chunks s1 (set_nth (chunks s1) i (set_pos (set_pos ch0 p1) npos))).
+           match goal with |- context [copy_block s2 ?a ?bb ?l ?no] => destruct (copy_block s2 a bb l no) as [s3' ub] eqn:Ecb end.
+           destruct (copy_block_fields _ _ _ _ _ _ _ Ecb) as (K1 & K2 & K3 & K4 & K5).
+           cbn [ro_ptr ro_size ro_ub].
+           destruct (add_block (remove_block s3' b) np nsize nalign) as [s4 id] eqn:Eadd. cbn [fst].
+           assert (HF : chunks s3' = set_nth (chunks s) i (set_pos ch0 npos) /\ cur s3' = cur s /\ aligns s3' = aligns s /\
+                        live s3' = live s /\ nextid s3' = nextid s).
+           { rewrite K1, K2, K3, K4, K5. unfold s2. cbn [chunks cur aligns live nextid upd_chunks].
+             rewrite D1, set_nth_set_nth, set_pos_set_pos. repeat split; assumption. }
+           destruct HF as (HF1 & HF2 & HF3 & HF4 & HF5).
+           eapply (realloc_in_cur_chunk c s b blk i ch0 np nsize nalign npos s3' s4 id); try eassumption.
+           ++ destruct (up c); [destruct Hside as [S1 S2]|destruct Hside as [S1 S2]]; split; lia.
+           ++ destruct (up c); [destruct Hside as [S1 S2]|destruct Hside as [S1 S2]]; repeat split; lia.
+        -- (* does not fit: restore the position, allocate elsewhere *)
+           set (s2 := set_cur_pos s1 (cpos ch0)).
+           assert (Ec1 : cur s1 = Cur i) by (rewrite D2; exact Ec).
+           destruct (set_cur_pos_fields s1 i (set_pos ch0 p1) (cpos ch0) Ec1 En1) as (G1 & G2 & G3 & G4 & G5).
+           fold s2 in G1, G2, G3, G4, G5.
+           assert (G1' : chunks s2 = chunks s).
+           { rewrite G1, D1, set_nth_set_nth, set_pos_set_pos, set_pos_cpos. apply set_nth_same. exact En. }
+           assert (Hinv2 : inv c s2) by (eapply (inv_ext c s); try eassumption; congruence).
+           assert (Hf2 : find_block s2 b = Some blk) by (rewrite (find_block_ext s s2) by congruence; exact Ef).
+           assert (Hr2 : resp_ok c s2 nsize nalign r) by (eapply resp_ok_ext; eassumption).
+           pose proof (shrink_moved_inv c s2 b blk nsize nalign r (raw_alloc_slow c s2 nsize nalign r) nsize
+                         Hc Hinv2 Hf2 Hl Hr2 (or_intror eq_refl)) as Hfin.
+           destruct (raw_alloc_slow c s2 nsize nalign r) as [s3' [np|e]].
+           ++ destruct (copy_block s3' (bptr blk) np nsize true) as [s4 ub]. cbn [ro_ptr ro_size ro_ub] in *.
+              destruct (add_block (remove_block s4 b) np nsize nalign) as [s5 id]. exact Hfin.
+           ++ exact Hfin.
+      * pose proof (shrink_moved_inv c s b blk nsize nalign r (raw_alloc c s nsize nalign r) nsize
+                      Hc Hinv Ef Hl Hr' (or_introl eq_refl)) as Hfin.
+        destruct (raw_alloc c s nsize nalign r) as [s3' [np|e]].
+        -- destruct (copy_block s3' (bptr blk) np nsize true) as [s4 ub]. cbn [ro_ptr ro_size ro_ub] in *.
+           destruct (add_block (remove_block s4 b) np nsize nalign) as [s5 id]. exact Hfin.
+        -- exact Hfin.
+    + (* alignment fits *)
+      apply negb_false_iff in Endiv. pose proof (divides_spec _ _ Hapos Endiv) as Hdivp.
+      destruct (negb (shrinks c) || negb (is_last c s (bptr blk) (bsize blk))) eqn:Eno.
+      * cbn [ro_ptr ro_size ro_ub].
+        destruct (add_block (remove_block s b) (bptr blk) (bsize blk) nalign) as [s3 id] eqn:Eadd. cbn [fst].
+        eapply (readd_subblock c s b blk (bsize blk) nalign s3 id); try eassumption. lia.
+      * apply orb_false_iff in Eno. destruct Eno as [_ El]. apply negb_false_iff in El.
+        unfold is_last in El. destruct (cur_chunk s) as [ch0|] eqn:Ecc; [|discriminate].
+        destruct (cur_chunk_spec s ch0 Ecc) as (i & Ec & En).
+        pose proof (Forall_nth_error _ _ _ _ Hok En) as [Hgeo Hpos].
+        assert (Hlast : if up c then bptr blk + bsize blk = cpos ch0 else bptr blk = cpos ch0).
+        { destruct (up c); apply Z.eqb_eq in El; exact El. }
+        assert (Hblkin : in_chunk c ch0 (bptr blk) (bsize blk)) by (eapply is_last_in_cur; eassumption).
+        destruct Hblkin as [I1 I2].
+        rewrite Ec in Hcur. destruct Hcur as (ch0' & En' & Hmp). rewrite En in En'. injection En' as <-.
+        destruct (up c) eqn:Eup.
+        -- (* up: keep the pointer, move the position back *)
+           cbn [ro_ptr ro_size ro_ub].
+           set (np := up_alignZ (bptr blk + nsize) (malign s)).
+           destruct (add_block (remove_block (set_cur_pos s np) b) (bptr blk) nsize nalign) as [s3 id] eqn:Eadd. cbn [fst].
+           assert (Hnp1 : bptr blk + nsize <= np) by (apply up_align_ge; exact Hmpos).
+           assert (Hnp2 : np <= cpos ch0) by (apply up_align_min; [exact Hmpos|exact Hmp|lia]).
+           destruct (set_cur_pos_fields s i ch0 np Ec En) as (G1 & G2 & G3 & G4 & G5).
+           eapply (realloc_in_cur_chunk c s b blk i ch0 (bptr blk) nsize nalign np (set_cur_pos s np) s3 id); try eassumption.
+           ++ rewrite Eup. exact Hlast.
+           ++ split; lia.
+           ++ apply up_align_div; exact Hmpos.
+           ++ rewrite Eup. repeat split; lia.
+        -- (* down: the block slides towards its old end *)
+           set (A := Z.max nalign (malign s)).
+           set (na := down_alignZ (Z.max (bptr blk + bsize blk - nsize) 0) A).
+           match goal with |- context [copy_block s ?a ?bb ?l ?no] => destruct (copy_block s a bb l no) as [s1 ub] eqn:Ecb end.
+           destruct (copy_block_fields _ _ _ _ _ _ _ Ecb) as (K1 & K2 & K3 & K4 & K5).
+           cbn [ro_ptr ro_size ro_ub].
+           destruct (add_block (remove_block (set_cur_pos s1 na) b) na nsize nalign) as [s3 id] eqn:Eadd. cbn [fst].
+           assert (HA2 : pow2 A) by (apply pow2_max; [exact Ha2|exact (proj1 Hm)]).
+           pose proof (pow2_pos _ HA2) as HApos.
+           pose proof (geom_bounds c Hc ch0 Hgeo) as (Hcs0 & _).
+           assert (HAp : (A | bptr blk)).
+           { unfold A. destruct (Z.max_spec nalign (malign s)) as [[_ ->]|[_ ->]]; [rewrite Hlast; exact Hmp|exact Hdivp]. }
+           assert (Hna1 : na <= bptr blk + bsize blk - nsize).
+           { pose proof (down_align_le (Z.max (bptr blk + bsize blk - nsize) 0) A HApos). fold na in H. lia. }
+           assert (Hna2 : bptr blk <= na) by (apply down_align_max; [exact HApos|exact HAp|lia]).
+           assert (En1 : nth_error (chunks s1) i = Some ch0) by (rewrite K1; exact En).
+           assert (Ec1 : cur s1 = Cur i) by (rewrite K2; exact Ec).
+           destruct (set_cur_pos_fields s1 i ch0 na Ec1 En1) as (G1 & G2 & G3 & G4 & G5).
+           assert (HF : chunks (set_cur_pos s1 na) = set_nth (chunks s) i (set_pos ch0 na) /\ cur (set_cur_pos s1 na) = cur s /\
+                        aligns (set_cur_pos s1 na) = aligns s /\ live (set_cur_pos s1 na) = live s /\ nextid (set_cur_pos s1 na) = nextid s).
+           { rewrite G1, G2, G3, G4, G5, K1, K2, K3, K4, K5. repeat split. }
+           destruct HF as (HF1 & HF2 & HF3 & HF4 & HF5).
+           eapply (realloc_in_cur_chunk c s b blk i ch0 na nsize nalign na (set_cur_pos s1 na) s3 id); try eassumption.
+           ++ rewrite Eup. exact Hlast.
+           ++ apply down_align_div_finer; [exact HApos|]. apply pow2_divide; [exact Ha2|exact HA2|unfold A; lia].
+           ++ split; lia.
+           ++ apply down_align_div_finer; [exact HApos|]. apply pow2_divide; [exact (proj1 Hm)|exact HA2|unfold A; lia].
+           ++ rewrite Eup. repeat split; lia.
+Qed.
+
 (* ------------------------------------------------------------ every reachable state *)
 Definition is_realloc (o : op) : bool :=
-  match o with OGrow _ _ _ _ _ _ | OShrink _ _ _ _ _ | OTryErr _ _ _ _ => true | _ => false end.
+  match o with OTryErr _ _ _ _ => true | _ => false end.
 
-(* PARTIAL: all operations except grow/shrink (their preservation proof is not finished; the
-   executable model of grow/shrink is still tied to the code by the correspondence check and
-   monitored on every trace). *)
+(* PARTIAL: every operation except OTryErr (alloc_try_with(_mut) whose closure returns Err: its
+   preservation proof is not finished; the executable model of that operation is still tied to
+   the code by the correspondence check and monitored on every trace). *)
 Theorem step_inv_partial c s o r :
   cfg_ok c -> inv c s -> is_realloc o = false -> op_ok c s o -> op_resp_ok c s o r ->
   inv c (fst (step c s o r)).
@@ -1288,6 +1817,8 @@ Proof.
   intros Hc Hinv Hnr Hok Hr. destruct o; try discriminate Hnr.
   - apply step_inv_alloc; assumption.
   - apply step_inv_dealloc; assumption.
+  - destruct Hok as [Hl Hge]. apply step_inv_grow; assumption.
+  - destruct Hok as [Hl Hle]. apply step_inv_shrink; assumption.
   - apply step_inv_fill; assumption.
   - apply step_inv_checkpoint; assumption.
   - apply step_inv_reset_to; assumption.
@@ -1358,3 +1889,4 @@ Proof.
       - apply IH; assumption. }
     specialize (Hgen _ Hd Ha Hb'). unfold disjoint2, disjoint_rng in Hgen. lia.
 Qed.
+
